@@ -164,6 +164,11 @@ theorem readTokenSeparator_none (l : List Byte) (c : Byte) (t : List Byte) (sk :
 theorem space_not_kwc {c : Byte} (h : isSpace c = true) : kwc c = false := by
   simp [isSpace, kwc, isAlnum, isAlpha, isUpper, isLower, isDigit] at *; bomega
 
+theorem markStart_G (cfg : RWCfg) (l r : List Byte) (sk : Bool) :
+    markStart cfg (G l r sk) = (G l r sk, cfg.errorResyncsFromStart) := by
+  unfold markStart
+  cases cfg.errorResyncsFromStart <;> simp [G_good]
+
 theorem readInstance_rec (ops : FloatOps F) (lex : LexCfg) (cfg : RWCfg) (d : Dict) (strict : Bool) (st : P2 F)
     (r : Rec F) (hlex : r.Lex) (l rest : List Byte) (sk : Bool) (hs : st.s = G l (r.text rest) sk)
     (inst : MInst F) (hfind : st.mgr.find? r.id = some inst) (hnew : inst.state = .new) (hcx : inst.complex = false)
@@ -197,7 +202,9 @@ theorem readInstance_rec (ops : FloatOps F) (lex : LexCfg) (cfg : RWCfg) (d : Di
   simp only [e1, Option.getD_some, hfind, hnew, bne_self_eq_false, Bool.false_eq_true, if_false]
   rw [e2, getInto_good 0 _ 61 _ sk]
   simp only [bne_self_eq_false, Bool.false_eq_true, if_false]
-  rw [e3, peekC_good]
+  rw [e3, markStart_G]
+  simp only
+  rw [peekC_good]
   have e38 : (r.n0 == 38) = false := by simp [hn038]
   have e40 : (r.n0 == 40) = false := by simp [hn040]
   have e33 : (r.n0 == 33) = false := by simp [hn033]
@@ -225,8 +232,9 @@ theorem readInstance_rec (ops : FloatOps F) (lex : LexCfg) (cfg : RWCfg) (d : Di
     fun L => readTokenSeparator_seps r.s4 h4 L 59 rest sk1 (by decide) (by decide)
   rw [e5, peekC_good]
   have e69 : ((59 : Byte) != 69) = true := by decide
+  have enw : decide (Sev.null.toInt ≤ Sev.warning.toInt) = false := by decide
   cases hm : cfg.missingSemicolonReported <;>
-    simp only [Bool.false_eq_true, if_false, if_true, beq_self_eq_true, e69,
+    simp only [Bool.false_eq_true, if_false, if_true, beq_self_eq_true, e69, enw, Bool.and_false,
       shiftInto_good _ _ 59 rest sk1 (by decide), stateOf] <;>
     exact ⟨_, sk1, rfl⟩
 
